@@ -189,13 +189,25 @@ def run_flask(ctx):
                 inner.append(t2)
                 return jsonify(ok=True)
 
+        # an optional protector: only the ABSENCE of credentials lets the request through anonymously; a token that is presented and is
+        # unknown, expired, revoked or insufficient is refused exactly as on a mandatory route
+        opt = []
+
+        @app.route("/o")
+        @rp(required, optional=True)
+        def o_():
+            from flask import g as _g
+            opt.append(getattr(_g, "authlib_server_oauth2_token", None))
+            return jsonify(ok=True)
+
         headers = {} if auth is None else {"Authorization": auth}
         # werkzeug refuses control characters in header values on the client side
         if auth is not None and any(ord(c) < 32 and c != "\t" for c in auth):
             continue
         with app.test_client() as c:
             resp = c.get("/r", headers=headers)
-            resp2 = c.get("/s", headers=headers)
+            resp3 = c.get("/o", headers=headers)
+            resp2 = c.get("/s", headers=headers)       # (last: it may revoke the token half way)
         if resp.status_code == 200:
             got = ["serve", "tok" if seen and seen[0] is store.get("tok") else "?"]
         else:
@@ -212,6 +224,19 @@ def run_flask(ctx):
         ctx.compare("flask-decorator", case, got, mod)
         if got[0] == "escapes":
             ctx.violation("C10:flask:escapes", "Flask resource protector answered with an unexpected status", case)
+        if resp3.status_code == 200:
+            got3 = ["serve", "tok" if opt and opt[0] is not None and opt[0] is store.get("tok") else ("anonymous" if opt and opt[0] is None else "?")]
+        else:
+            try:
+                got3 = ["refuse", resp3.status_code, resp3.get_json()["error"]]
+            except Exception:
+                got3 = ["escapes", str(resp3.status_code)]
+        want3 = ["serve", "anonymous"] if mod[0] == "refuse" and mod[2] == "missing_authorization" else mod
+        case3 = dict(case, optional=True)
+        ctx.case(case3, ("flask-optional", auth, str(st), json.dumps(scope), json.dumps(required)), "flask-optional:" + ":".join(got3[:2] if got3[0] == "serve" else got3[:1]))
+        ctx.compare("flask-optional", case3, got3, want3)
+        if got3[0] == "serve" and want3[0] != "serve":
+            ctx.violation("C10:flask:optional-served", "an optional protector served a request that PRESENTED a token which is unknown, expired, revoked or insufficient", case3)
         # step-up: served only if the first AND the second acquisition would each be served on their own; a refusal is the first one's,
         # else the second one's
         if resp2.status_code == 200:
